@@ -235,6 +235,12 @@ def pollJoinHandle (F : Lens U FutHeap) (b : Nat) : Prog U LeafRes := do
   K.setL (joinL F b) j'
   match r with
   | some ok => do
+    -- the waiting task inherits the clock of the finished task (F13 repaired: as thread join does)
+    match j.tid with
+    | some t => do
+      let c ← K.clockOf t
+      K.updateClock c
+    | none => pure ()
     match j.tid with
     | some t => K.detach t
     | none => pure ()
